@@ -62,9 +62,11 @@ def rel_symlink(base: Path, dir: Path) -> Optional[Path]:
 
     If path points outside base, returns None.
     """
-    path = dir.parent / os.readlink(str(dir))
+    # the target of this link itself (not where a chain of further links ends),
+    # seen from the actual location of the link and without .. and . segments
+    target = os.path.normpath(dir.parent.resolve() / os.readlink(str(dir)))
     try:
-        return path.resolve().relative_to(base.resolve())
+        return Path(target).relative_to(base.resolve())
     except ValueError:
         return None  # link points outside of base directory
 
